@@ -102,6 +102,8 @@ pub struct Report {
     pub notes: Vec<String>,
     pub exhaustive: bool,
     pub outcomes: std::collections::HashSet<u64>,
+    /// abstract states seen (model-checking engines); unioned across shards by the driver
+    pub state_hashes: std::collections::HashSet<u64>,
 }
 
 pub fn hash_str(s: &str) -> u64 {
@@ -130,6 +132,7 @@ impl Report {
             notes: vec![],
             exhaustive: true,
             outcomes: Default::default(),
+            state_hashes: Default::default(),
         }
     }
     /// count one evaluated case; `key` identifies the case for distinctness (None = trivial)
@@ -169,6 +172,7 @@ impl Report {
             "distinct_nontrivial": self.distinct.len(),
             "distinct_hashes": self.distinct.iter().collect::<Vec<_>>(),
             "outcome_hashes": self.outcomes.iter().collect::<Vec<_>>(),
+            "state_hashes": self.state_hashes.iter().collect::<Vec<_>>(),
             "rule": self.rule,
             "samples": self.samples,
             "violations": self.violations,
@@ -190,6 +194,7 @@ impl Report {
                 let mut j = self.to_json();
                 j.as_object_mut().unwrap().remove("distinct_hashes");
                 j.as_object_mut().unwrap().remove("outcome_hashes");
+                j.as_object_mut().unwrap().remove("state_hashes");
                 println!("{}", serde_json::to_string_pretty(&j).unwrap())
             }
         }
